@@ -45,6 +45,15 @@ for trial in range(400 if mode == 'quick' else 4000):
         continue
     probe = np.vstack([pts, rg.random((20, nd)),
                        rg.choice(special, size=(10, nd))])
+    # coordinates just below / above the wrap position of every periodic
+    # parameter (forward and inverse direction)
+    for i, d in enumerate(per):
+        for sgn in (+1, -1):
+            wrap = (sgn * (b.centers[i] - 0.5)) % 1
+            for delta in (1e-4, 3e-6, 1e-9, 1e-13, -1e-9, -3e-6):
+                row = rg.random(nd)
+                row[d] = (wrap - delta) % 1
+                probe = np.vstack([probe, row])
     keep = probe.copy()
     for inv in (False, True):
         t = b.transform(probe, inverse=inv)
